@@ -94,7 +94,10 @@ def judge(case, run, world, callers):
                     vio.append(V(P, "refused-not-resent", f"{what}: GOAWAY(last_stream_id={goaway and goaway['last']}) refused stream {tx[0][1]} carrying {tok} - the "
                                  f"server provably did not process it - but the call was not transparently re-sent: {len(tx)} transmission(s), outcome "
                                  f"{out['exc']['type'] if out['exc'] else out.get('status')}" + (f" raised in {out['exc'].get('inner')}" if out["exc"] else ""),
-                                 site=(out["exc"] or {}).get("inner"), **base))
+                                 site=(out["exc"] or {}).get("inner"),
+                                 # was the refused transmission still uploading (request body not complete on the wire) when the call failed? Only
+                                 # then can "the refusal was noticed by the writer" (F-C14-refusal-noticed-by-writer-not-resent) be the reason
+                                 upload_incomplete=bool(step["spec"].get("content") is not None and not (tx[0][3] or {}).get("complete")), **base))
             if out is not None and out["exc"] is None and tx:
                 # success: the response must come from a transmission that completed
                 if not any(t[3] is not None and t[3].get("complete") for t in tx):
@@ -149,7 +152,7 @@ def h2_events(kind, ctx, shape):
 def enum_cases(tier):
     cases = []
     for kind in KINDS:
-        for ctx in CONTEXTS + (["reader-first"] if is_h2(kind) else []):
+        for ctx in CONTEXTS + (["reader-first", "held-sibling"] if is_h2(kind) else []):
             for shape in SHAPES:
                 elig, _ = c05.base_counts(kind, ctx, shape)
                 for retries in (0, 2):
